@@ -1,4 +1,5 @@
 import RsddModel.Model.CnfUtil
+import RsddModel.Model.UnitProp
 /-!
 # Control combinators used by the regenerated definitions of `Model/GenCnfUp.lean`
 
@@ -90,6 +91,17 @@ theorem forStep_find {α ρ : Type} (p : α → Bool) (r : α → ρ) (f : Unit 
 
 /-- `VarSet == VarSet` in the model: equality of the structures (`VarSet` derives `DecidableEq`) -/
 def varSetEq (s t : CnfUtil.VarSet) : Bool := decide (s = t)
+
+/-- `SATSolver::new(cnf)` in the model (the code as it is now: `repaired = true`) -/
+def solverNewModel (cnf : Spec.Cnf) : Option (Option UnitProp.Solver) := UnitProp.Solver.new cnf true
+
+/-- `UnitPropagate::new(cnf)` in the model, with the watch lists of a `None` result erased (the Rust `None` carries no
+propagator; the model keeps whatever watch lists it had at that point): `none` = fuel, `some none` = Rust `None` -/
+def upNewModel (cnf : Spec.Cnf) (fuel : Nat) : Option (Option (UnitProp.WL × Spec.PModel)) :=
+  match UnitProp.upNew cnf true fuel with
+  | none => none
+  | some (_, none) => some none
+  | some (wl, some m) => some (some (wl, m))
 
 /-! ## `AssignmentIter::next` as a state machine (literal mirror of the Rust) and its relation to the model's
 `CnfUtil.assignmentIter` -/
